@@ -187,7 +187,13 @@ fn main() {
                 eprintln!("replay needs a file");
                 std::process::exit(2)
             });
-            let doc: Value = serde_json::from_str(&std::fs::read_to_string(&file).expect("read replay")).expect("json");
+            let doc: Value = match std::fs::read_to_string(&file).map_err(|e| e.to_string()).and_then(|t| serde_json::from_str(&t).map_err(|e| e.to_string())) {
+                Ok(d) => d,
+                Err(e) => {
+                    eprintln!("MACHINERY-ERROR: cannot read the replay file {}: {}", file, e);
+                    std::process::exit(2)
+                }
+            };
             let case = if doc.get("case").is_some() { doc["case"].clone() } else { doc.clone() };
             let a = (p.replay)(&case);
             let b = (p.replay)(&case);
